@@ -13,7 +13,10 @@ Three families of monitors, all against the independent reference
   generation, parsing, cloning, JSON + re-binding, every mutator and
   recombinator of pyglove.ext.evolution, in chains) has each node bound to the
   decision point of its own position: same per-node `spec`, same views as a
-  DNA rebuilt from its raw numbers.
+  DNA rebuilt from its raw numbers. This includes histories of requests on
+  one long-lived spec object and on its parts used as specs of their own
+  (`run_history`): the producers are asked in any order, with attach_spec both
+  ways, after the enclosing space has iterated the part internally.
 """
 import copy
 import itertools
@@ -27,7 +30,7 @@ from pgverif.monitors import genoref as G
 TIERS = {
     'quick': dict(shards=8, cases=10, dnas=6, handed=3, per_member_sources=14,
                   chains=3, proposals=7, max_points=10, histories=1,
-                  hist_ops=14, hist_parts=4, timeout_s=900,
+                  hist_ops=12, hist_parts=4, timeout_s=900,
                   case_timeout_s=300),
     'thorough': dict(shards=16, cases=64, dnas=8, handed=4, per_member_sources=24,
                      chains=5, proposals=10, max_points=18, all_views_per_case=True,
@@ -61,13 +64,26 @@ RULE = ('case = one random search-space description of gen/spaces.random_space '
         'the proposals of a short Evolution run are compared node by node (node.spec '
         'vs the reference point of that position) and view by view (5 fixed views + 1 '
         'random, the full product on 5 %) with a DNA rebuilt from their raw numbers. '
+        'Finally `histories` histories of `hist_ops` requests on ONE long-lived spec '
+        'object (the one all sources above used, or a build that never handed out a '
+        'DNA) and on <= hist_parts of its parts used as specs of their own (elements '
+        'of the space and of nested sub-spaces, sub-choices of a multi-choice, '
+        'candidate sub-spaces): first_dna / next_dna / iter_dna / random_dna with '
+        'attach_spec left out, True or False, DNA.next_dna / DNA.iter_dna, in random '
+        'order, so that parts are asked after the enclosing space iterated them '
+        'internally and after an attach_spec=False request; every result is compared '
+        'with the reference enumeration of the part (first member, successor, '
+        'membership) and, unless attach_spec=False (binding left open), aligned like '
+        'every other handed-out DNA, ids relative to the whole spec. '
         'Non-trivial = the space has a multi-choice or a conditional sub-space and at '
         'least one handed-out DNA was compared; distinct by description.')
 REQUIRED_COUNTERS = ['to_dict_content_checks', 'from_dict_roundtrips',
                      'specs_built:reused-objects', 'reused_at_other_position',
                      'numbers_roundtrips', 'json_roundtrips', 'lookup_checks',
                      'alignment_checks', 'node_binding_checks',
-                     'operator_outputs_checked']
+                     'operator_outputs_checked', 'history_sub_spec_requests',
+                     'history_requests_after_enclosing_use',
+                     'history_requests_after_unattached']
 ASSUMPTIONS = [
     'decision-point names are unique per declared point (the library itself repeats a name on the subchoices of a multi-choice and on the copies of a conditional sub-space below a multi-choice); for a name shared by several points only the set and order of the active decisions is checked',
     'literal values are pairwise distinct, never of the form i/n; use_ints_as_literals is passed for the literal view when a choice has int literals',
@@ -75,6 +91,7 @@ ASSUMPTIONS = [
     'filtered views are lossy by construction: only their content and alignment are checked, not reconstruction',
     'operators are only a source of DNAs: an operator that raises or returns a non-member is counted and skipped (C14)',
     'a DNA is equal to another iff the library == says so AND the (value, children) shapes with value types agree',
+    'a part of a spec (element, sub-choice, candidate sub-space) asked for DNAs on its own spans the space of its own description (a sub-choice: one choice among its candidates) and keeps the decision-point ids it has inside the whole spec; whether a DNA requested with attach_spec=False is bound is left open, its value is not',
 ]
 
 KEY_TYPES = ['id', 'name_or_id', 'dna_spec']
@@ -1170,7 +1187,7 @@ def run_history(ctx, sp, case, used_before):
   unattached = set()
   pool = {i: [] for i in chosen}           # (flat, DNA or None) handed out
   trace = []
-  n_iter = 3
+  n_iter = 2
   checked = 0
   c['histories'] += 1
   c['history_parts_available'] += len(parts) - 1
